@@ -31,7 +31,7 @@ import (
 // path (initial, periodic, solicited, final, consistency check, scrape, API),
 // tracking flips between consecutive RAs.
 
-var c04Events = []string{"flip", "tick", "rs-uni", "rs-unspec", "ra-in", "fwd-read-fails", "enobufs+flip"}
+var c04Events = []string{"flip", "tick", "rs-uni", "rs-unspec", "ra-in", "fwd-read-fails", "fwd-read-denied", "enobufs+flip"}
 
 type c04Case struct {
 	Lifetime string   `json:"default_lifetime"` // "", "0s", "1234s"
@@ -233,12 +233,15 @@ func c04Run(t *testing.T, c c04Case) (x *vsched.Exec, out [][2]string) {
 						}
 						vsched.Sleep(4200 * time.Millisecond)
 						w.writeFault = nil
-					case "fwd-read-fails":
+					case "fwd-read-fails", "fwd-read-denied":
 						// From now on the forwarding sysctl cannot be read. Whatever the
 						// advertiser does then (it gives up), it must not advertise a non-zero
 						// lifetime while forwarding is off.
 						w.st.mu.Lock()
 						w.st.fwdErr = errors.New("verif: too many open files")
+						if e == "fwd-read-denied" {
+							w.st.fwdErr = &os.PathError{Op: "open", Path: "/proc/sys/net/ipv6/conf/eth0/forwarding", Err: syscall.EACCES}
+						}
 						w.st.mu.Unlock()
 						vsched.Obs("fwd-read-fails", "")
 						a.inject(rsFrom("fe80::6", true))
